@@ -38,6 +38,7 @@ pub struct Written {
     pub plain_strings: u32,
     pub quoted_strings: u32,
     pub block_scalars: u32,
+    pub empty_nulls: u32,
 }
 
 struct W<'a, 'b> {
@@ -50,6 +51,7 @@ struct W<'a, 'b> {
     quoted: u32,
     layout: bool,
     block_scalars: u32,
+    empty_nulls: u32,
 }
 
 const KEYWORDS: [&str; 11] = ["y", "n", "yes", "no", "on", "off", "true", "false", "null", "~", ""];
@@ -313,6 +315,10 @@ impl<'a, 'b> W<'a, 'b> {
                 self.put(" ");
                 self.flow(x, ptr, 0);
             }
+            // an empty value is null (`key:` / `-` with nothing after it)
+            V::Null if self.layout && self.u.chance(1, 3) => {
+                self.empty_nulls += 1;
+            }
             V::Str(t) if self.layout && block_scalar_ok(t) && self.u.chance(1, 3) => {
                 // literal / folded block scalar: always a string, whatever the text looks like
                 self.put(" ");
@@ -388,7 +394,7 @@ fn lead(w: &mut W, spaces: bool) {
 }
 
 pub fn write_doc(v: &V, style: Style, u: &mut Choices, layout: bool) -> Written {
-    let mut w = W { u, out: String::new(), line: 0, col: 0, pos: BTreeMap::new(), plain: 0, quoted: 0, layout, block_scalars: 0 };
+    let mut w = W { u, out: String::new(), line: 0, col: 0, pos: BTreeMap::new(), plain: 0, quoted: 0, layout, block_scalars: 0, empty_nulls: 0 };
     match style {
         Style::JsonCompact => {
             lead(&mut w, true);
@@ -440,5 +446,5 @@ pub fn write_doc(v: &V, style: Style, u: &mut Choices, layout: bool) -> Written 
             p.1 += k;
         }
     }
-    Written { text: w.out, pos: w.pos, plain_strings: w.plain, quoted_strings: w.quoted, block_scalars: w.block_scalars }
+    Written { text: w.out, pos: w.pos, plain_strings: w.plain, quoted_strings: w.quoted, block_scalars: w.block_scalars, empty_nulls: w.empty_nulls }
 }
